@@ -1,13 +1,19 @@
 package errs
 
 import (
+	"context"
 	"errors"
 	"fmt"
+	"io"
+	"net"
 	"os"
 	"strconv"
 	"strings"
 
 	"github.com/gofiber/fiber/v3"
+	"github.com/gofiber/fiber/v3/middleware/logger"
+	fiberrecover "github.com/gofiber/fiber/v3/middleware/recover"
+	"github.com/valyala/fasthttp"
 
 	"verifharness/internal/drive"
 	"verifharness/internal/gen"
@@ -39,9 +45,18 @@ const (
 	kPlain           // errors.New
 	kWrapped         // fmt.Errorf("%w", fiber.NewError(code))
 	kPredecl         // one of fiber's predeclared Err* values
+	// standard sentinel errors next to and around *fiber.Error values (plan.Sent selects one)
+	kSentinel         // the sentinel itself (context.Canceled, io.EOF, ...)
+	kFiberAndSentinel // fmt.Errorf("%w: %w", fiber.NewError(code), sentinel)
+	kSentinelWrapsFib // fmt.Errorf("backend: %w", errors.Join(sentinel, fiber.NewError(code)))
+	kJoinSentinels    // errors.Join(sentinel, another sentinel)
 )
 
-var kindNames = [...]string{"fiber-error", "fiber-error-msg", "plain-error", "wrapped-fiber-error", "predeclared-fiber-error"}
+var kindNames = [...]string{"fiber-error", "fiber-error-msg", "plain-error", "wrapped-fiber-error", "predeclared-fiber-error",
+	"sentinel-error", "fiber-error-and-sentinel", "sentinel-joined-with-fiber-error", "joined-sentinels"}
+
+var sentinels = []error{context.Canceled, context.DeadlineExceeded, io.EOF, io.ErrUnexpectedEOF, net.ErrClosed,
+	os.ErrNotExist, fasthttp.ErrTimeout}
 var handlerNames = [...]string{"none", "ok", "fail-plain", "fail-fiber-error", "explicit-default"}
 var posNames = [...]string{"none", "mw-pre", "mw-post", "endpoint"}
 
@@ -75,6 +90,8 @@ type appSpec struct {
 	// The mount prefix is written without its leading slash ("api", "v1/x"): in the prefix
 	// argument of Use, or in the group prefix when that carries the first segment.
 	NoSlash bool `json:"no_slash,omitempty"`
+	// Logger: the app's chain starts with logger.New in that variant (see logFormat ...).
+	Logger int `json:"logger,omitempty"`
 }
 
 // extraMount mounts the app instance App a second time: into Parent under Rel. Early: right
@@ -193,8 +210,11 @@ type treeSpec struct {
 	// ServeSub > 0: that mounted app instance is also started and served directly (as its own
 	// root), before the root app's first start (SubFirst) or after it. All mounting is done
 	// before either start.
-	ServeSub int  `json:"serve_sub,omitempty"`
-	SubFirst bool `json:"sub_first,omitempty"`
+	// RootRecover: the root's first middleware is recover.New(); requests may then raise their
+	// error by panicking with it.
+	RootRecover bool `json:"root_recover,omitempty"`
+	ServeSub    int  `json:"serve_sub,omitempty"`
+	SubFirst    bool `json:"sub_first,omitempty"`
 	// Served is set on the view of a tree as seen through the directly served app: the
 	// sub-tree below it, re-indexed, prefixes relative to it.
 	Served *servedInfo `json:"served,omitempty"`
@@ -226,6 +246,10 @@ type plan struct {
 	// SendFile returned (the 404 of a missing file is then the chain's error; after a sent
 	// file a middleware can still raise after Next returned).
 	SendFile int `json:"send_file,omitempty"`
+	// Sent selects the sentinel of the sentinel error kinds. Panic: the raising handler panics
+	// with the error instead of returning it (only in trees whose root starts with recover.New).
+	Sent  int  `json:"sentinel,omitempty"`
+	Panic bool `json:"panic,omitempty"`
 }
 
 var sendFileNames = [...]string{"", "/nofile/a.pdf", "./public/missing-errs-engine.txt", ""}
@@ -406,12 +430,14 @@ type slot struct {
 	raised    int
 	raisedErr error
 
-	epN    int
-	ep     int
-	mwMask uint32
-	preSet int  // how often a scripted status was put on the response
-	sent   int  // c.SendFile calls made by the serving endpoint
-	sfErr  bool // the chain's error is the one SendFile returned
+	epN       int
+	ep        int
+	mwMask    uint32
+	preSet    int  // how often a scripted status was put on the response
+	sent      int  // c.SendFile calls made by the serving endpoint
+	sfErr     bool // the chain's error is the one SendFile returned
+	loggerSaw int  // errors that came back to a logger middleware (seen by the probe right inside it)
+	panicked  int  // scripted panics
 
 	_ [64]byte // keep slots of different goroutines on different cache lines
 }
@@ -430,6 +456,8 @@ func (s *slot) reset(p plan) {
 	s.preSet = 0
 	s.sent = 0
 	s.sfErr = false
+	s.loggerSaw = 0
+	s.panicked = 0
 }
 
 func (s *slot) raise(c fiber.Ctx) error {
@@ -448,11 +476,23 @@ func (s *slot) raise(c fiber.Ctx) error {
 		err = errors.New("scripted plain error")
 	case kWrapped:
 		err = fmt.Errorf("wrapped: %w", fiber.NewError(p.Code))
+	case kSentinel:
+		err = sentinels[p.Sent%len(sentinels)]
+	case kFiberAndSentinel:
+		err = fmt.Errorf("%w: %w", fiber.NewError(p.Code), sentinels[p.Sent%len(sentinels)])
+	case kSentinelWrapsFib:
+		err = fmt.Errorf("backend: %w", errors.Join(sentinels[p.Sent%len(sentinels)], fiber.NewError(p.Code)))
+	case kJoinSentinels:
+		err = errors.Join(sentinels[p.Sent%len(sentinels)], sentinels[(p.Sent+1)%len(sentinels)])
 	default:
 		err = predecl[p.Code%len(predecl)]
 	}
 	s.raised++
 	s.raisedErr = err
+	if p.Panic {
+		s.panicked++
+		panic(err)
+	}
 	return err
 }
 
@@ -507,8 +547,44 @@ func (r *recorder) middleware(i int) fiber.Handler {
 			return s.raise(c)
 		}
 		err := c.Next()
-		if s.plan.App == i && s.plan.Pos == posMwPost && s.raised == 0 {
+		// (not after a logger further in already delivered an error of this request: the chain
+		// then would produce a second error)
+		if s.plan.App == i && s.plan.Pos == posMwPost && s.raised == 0 && s.loggerSaw == 0 {
 			return s.raise(c)
+		}
+		return err
+	}
+}
+
+// Logger variants of an app (appSpec.Logger): the repository's logger middleware is the app's
+// first middleware, followed by a probe that records errors coming back to it.
+const (
+	logNone       = iota
+	logFormat     // custom format with ${error}, Stream io.Discard
+	logSkipAlways // Skip returns true for every request
+	logSkipNever  // Skip returns false, Done callback set
+	logDefault    // default format (corpus only: it starts a timestamp goroutine per instance)
+)
+
+func loggerFor(kind int) fiber.Handler {
+	cfg := logger.Config{Stream: io.Discard, Format: "${status} ${method} ${path} ${error}\n"}
+	switch kind {
+	case logSkipAlways:
+		cfg.Skip = func(fiber.Ctx) bool { return true }
+	case logSkipNever:
+		cfg.Skip = func(fiber.Ctx) bool { return false }
+		cfg.Done = func(fiber.Ctx, []byte) {}
+	case logDefault:
+		cfg.Format = ""
+	}
+	return logger.New(cfg)
+}
+
+func (r *recorder) loggerProbe() fiber.Handler {
+	return func(c fiber.Ctx) error {
+		err := c.Next()
+		if err != nil {
+			r.slot(c).loggerSaw++
 		}
 		return err
 	}
@@ -644,6 +720,13 @@ func build(ts *treeSpec, rec *recorder) []*fiber.App {
 	}
 	var setup func(i int)
 	setup = func(i int) {
+		if i == 0 && ts.RootRecover {
+			apps[0].Use(fiberrecover.New())
+		}
+		if k := ts.Apps[i].Logger; k != logNone {
+			apps[i].Use(loggerFor(k))
+			apps[i].Use(rec.loggerProbe())
+		}
 		if ts.Apps[i].Mw {
 			apps[i].Use(rec.middleware(i))
 			step()
@@ -777,7 +860,29 @@ func genTree(r *gen.Rand) *treeSpec {
 	pickGroupForms(ts)
 	pickNoSlash(ts)
 	pickServe(ts)
+	pickErrorAwareMiddleware(ts)
 	return ts
+}
+
+// pickErrorAwareMiddleware puts the repository's logger middleware (three configurations) at
+// the head of the chains of some apps of a sixth of the trees, and recover.New at the head of
+// the root's chain of a sixth (own generator, post-pass). Not in trees with a directly served
+// sub-app: logger.New remembers the ErrorHandler of the app that served its first request.
+func pickErrorAwareMiddleware(ts *treeSpec) {
+	cr := gen.New(gen.Hash64("error-aware-mw", ts.describe()))
+	if cr.Chance(1, 6) && ts.ServeSub == 0 {
+		n := 0
+		for i := range ts.Apps {
+			if (i == 0 && cr.Bool()) || (i > 0 && cr.Chance(1, 3)) {
+				ts.Apps[i].Logger = 1 + cr.Intn(3)
+				n++
+			}
+		}
+		if n == 0 {
+			ts.Apps[cr.Intn(len(ts.Apps))].Logger = 1 + cr.Intn(3)
+		}
+	}
+	ts.RootRecover = cr.Chance(1, 6)
 }
 
 // pickServe lets, in a quarter of the trees, one mounted app also be started and served
@@ -1171,6 +1276,19 @@ func genReq(r *gen.Rand, ts *treeSpec) reqSpec {
 		rq.URI = rq.Path
 		rq.Form = "send-file"
 		rq.Plan.SendFile = 1 + fr.Intn(3)
+	}
+	// a fifth of the scripted errors are or wrap standard sentinel errors; in trees whose root
+	// recovers panics a quarter of the raises panic with the error (own generator)
+	kr := gen.New(gen.Hash64("error-value", rq.Method, rq.URI, strconv.Itoa(rq.Plan.App), strconv.Itoa(rq.Plan.Pos), strconv.Itoa(rq.Plan.Code)))
+	if kr.Chance(1, 5) {
+		rq.Plan.Kind = kSentinel + kr.Intn(4)
+		rq.Plan.Sent = kr.Intn(len(sentinels))
+		if rq.Plan.Code < 400 {
+			rq.Plan.Code = gen.Pick(kr, codes)
+		}
+	}
+	if ts.RootRecover && kr.Chance(1, 4) {
+		rq.Plan.Panic = true
 	}
 	// a status left on the response by something earlier in the chain (own generator, so
 	// the draws above are unchanged)
